@@ -124,6 +124,8 @@ Definition probe_outcome (p : option (list Z)) : outcome :=
   | Some pl => match parse_reply pl with Ok r => Got r | Raise _ => Failed end
   end.
 
+(* the host-key type test also knows ssh-ed448 (fix af30915); the CA type test does not *)
+Definition is_ecc_host (t : string) : bool := starts_with "ssh-ed25519" t || starts_with "ssh-ed448" t || starts_with t_ecdsa_prefix t.
 Definition is_ecc (t : string) : bool := starts_with "ssh-ed25519" t || starts_with t_ecdsa_prefix t.
 Definition note_small (what : string) (s : Z) : string := "using small " +++ z_to_string s +++ "-bit " +++ what +++ "modulus".
 Definition note_nsa_ca : string :=
@@ -132,7 +134,7 @@ Definition note_nsa_ca : string :=
 (* key_fail_comments, key_warn_comments of one probed type *)
 Definition size_notes (name : string) (cert : bool) (hs : Z) (cat : string) (cs : Z) : list string * list string :=
   if (0 <? hs) || (0 <? cs) then
-    let hecc := is_ecc name in let cecc := is_ecc cat in
+    let hecc := is_ecc_host name in let cecc := is_ecc cat in
     let hgood := if hecc then hk_min_good_ecc else hk_min_good_rsa in
     let hwarn := if hecc then hk_min_warn_ecc else hk_min_warn_rsa in
     let hstr := if hecc then hk_small_ecc_warning else hk_two2k_warning in
@@ -200,7 +202,9 @@ Definition json_key_fields (name : string) (hks : list (string * hkrec)) : optio
   match assoc name hks with
   | None => (None, None)
   | Some v =>
-      ((if mem name rsa_family || starts_with t_rsa_cert_prefix name then Some (hk_size (h_info v)) else None),
+      ((if mem name rsa_family || starts_with t_rsa_cert_prefix name
+           || starts_with "rsa-sha2-256-cert-v0" name || starts_with "rsa-sha2-512-cert-v0" name   (* fix 13b23e2 *)
+        then Some (hk_size (h_info v)) else None),
        (if 0 <? hk_ca_size (h_info v) then Some (hk_ca_type (h_info v), hk_ca_size (h_info v)) else None))
   end.
 
